@@ -37,6 +37,14 @@ CHECKS = {
             "service-format INST, narrower legacy numeric columns, truncated / unknown-type PROP chunks); rbx_binary must decode each to the logical DOM.",
             "trusts: docs/binary.md, the implementation's UniqueId/Content.SourceTypes layout (disagreement with the document reported under C03)",
             "DESIGN.md 2/C04"),
+    "C08": ("exploration",
+            "metamorphic + round-trip property testing over generated same-class groups (sibling-order permutations, value-independence of defaults)",
+            "Generated groups of 2-6 same-class instances with property subsets spelled through canonical / alias / serializes-as / legacy names: (1) if each serializes alone the group "
+            "must serialize in every sibling permutation (all n! up to 4, 24 sampled beyond); (2) after read-back each instance shows its own (migrated where legacy) values and database "
+            "defaults / neutral values for what it lacked; (3) what it shows for a lacked property must not change when only the siblings' values change. The two pairs of canonical "
+            "properties that share one serialized name in the bundled database are open findings with exhaustive probes.",
+            "trusts: PropertyMigration::perform and the BrickColor palette as the definition of a migrated value (their cross-path agreement is C15's subject)",
+            "DESIGN.md 2/C08"),
     "C09": ("exploration",
             "model-based (stateful) property testing of operation histories with proptest + bounded-exhaustive enumeration of short histories",
             "Generated histories of insert/destroy/transfer_within/transfer/clone*/into_raw+from_raw over 1-3 DOMs (arguments always inside the documented "
